@@ -254,8 +254,13 @@ def judge(ctx, sp, base_frames, d, flavour, t, p16, sched, want_san_clean=True):
             ok = False
             # with loop restoration on, the LR row jobs are the known source (one key); without it the key names
             # the tile layout and features so that a recon/LF/CDEF ordering defect is a different violation
-            key = "C09|mt-mismatch|lr=on" if sp.get("lr") == "on" else \
-                "C09|mt-mismatch|lr=off|tiles=%s|%s" % (sp["layout"], common.feature_sig(sp["case"]))
+            # (same for superres: the upscale path is a second, rarer, source)
+            if sp.get("lr") == "on":
+                key = "C09|mt-mismatch|lr=on"
+            elif int(sp["case"].get("cfg.superres_mode", 0)):
+                key = "C09|mt-mismatch|lr=off|superres=on"
+            else:
+                key = "C09|mt-mismatch|lr=off|superres=off|tiles=%s|%s" % (sp["layout"], common.feature_sig(sp["case"]))
             chk.violation(key, "threads=%d output differs from threads=1: %s (%s)" % (t, diff, ident), case)
             chk.bump("mt_decodes_with_wrong_pictures")
         else:
@@ -385,9 +390,14 @@ def run(chk, tier, replay=None):
 
     # 3. watchdog hits: solitary re-runs; only a hang that reproduces is a violation.  An intermittent deadlock needs
     #    several tries, so the case is repeated (alone, one process at a time) until it hangs again or the budget ends.
+    confirmed_hangs = set()
     for sp, fl, t, p16, sched, d0 in ctx.retry:
         p = d0.prefix + ".retry"
         tries = 1 if fl == "tsan" else (25 if fl == "plain" else 6)
+        hkey = "C09|hang|%s" % (dec.pending_call(d0) or "?")
+        if hkey in confirmed_hangs:
+            # this signature already reproduced in this campaign: one re-run (for the pictures) is enough
+            tries = 1
         again, completed = None, []
         for k in range(tries):
             d = dec.run_dec_case(fl, mt_case(sp, t, p16, 1 if fl == "plain" else 0), p, sched=sched,
@@ -400,9 +410,15 @@ def run(chk, tier, replay=None):
         snap = lambda d: "threads=%s cpu_ticks_delta=%s states=%s" % ((d.hang or {}).get("threads"),
                                                                      (d.hang or {}).get("cpu_ticks_delta"),
                                                                      ",".join((d.hang or {}).get("states", [])))
-        if again is not None:
+        if again is None and hkey in confirmed_hangs:
+            chk.bump("watchdog_hits_with_confirmed_signature")
+            chk.violation(hkey, "watchdog hit with the signature of a hang already reproduced in this campaign: %s; %s"
+                          % (snap(d0), desc(sp, fl, t, p16, sched)),
+                          {"spec": sp, "flavour": fl, "threads": t, "pipe16": p16, "sched": sched})
+        elif again is not None:
             pend = dec.pending_call(again) or dec.pending_call(d0)
             stage = "teardown" if pend in ("dec_deinit", "dec_deinit_handle") else "decode"
+            confirmed_hangs.add("C09|hang|%s" % (pend or "?"))
             chk.violation("C09|hang|%s" % (pend or "?"),
                           "multi-threaded decode hung twice (first in the campaign, then after %d completed solitary re-runs), in "
                           "%s: call that never returned: %s; first hang: %s; second hang: %s; %d pictures delivered; %s"
